@@ -118,7 +118,11 @@ size_t user_slot(const carquet_schema_node_t* n) {
     }
 }
 
-void exercise(const std::string& path, size_t image_size, int mode, bool verify, sim::Rng& r, uint64_t& evals) {
+// out (optional): hash of everything the calls returned that a caller can legitimately look at; two executions of the same history
+// that differ only in what fresh heap memory contains must agree on it
+void exercise(const std::string& path, size_t image_size, int mode, bool verify, sim::Rng& r, uint64_t& evals, uint64_t* out = nullptr) {
+    auto mixb = [&](const void* p, size_t n) { if (out) *out = sim::fnv(p, n, *out ^ (n * 0x9E3779B97F4A7C15ull)); };
+    auto mixi = [&](int64_t v) { mixb(&v, sizeof v); };
     sim::set_call_budget(BUDGET_C0 + BUDGET_C1 * (image_size + 4096), BUDGET_C1);
     auto o = exec::open_image(path, mode, verify);
     evals++;
@@ -151,8 +155,20 @@ void exercise(const std::string& path, size_t image_size, int mode, bool verify,
                 int64_t maxv = r.below(3) == 0 ? 1 + r.below(8) : remaining > 0 && remaining < 5000 && r.below(2) ? remaining + (int64_t)r.below(3) : 1 + (int64_t)r.below(300);
                 if (slot * (size_t)maxv > (64u << 20)) continue;
                 exec::Buf vals(slot * (size_t)maxv), defs(2 * (size_t)maxv), reps(2 * (size_t)maxv);
-                int64_t n = cq::column_read_batch(cr, vals.get(), maxv, r.below(4) ? (int16_t*)defs.get() : nullptr, r.below(2) ? (int16_t*)reps.get() : nullptr);
+                bool want_defs = r.below(4) != 0, want_reps = r.below(2) != 0;
+                int64_t n = cq::column_read_batch(cr, vals.get(), maxv, want_defs ? (int16_t*)defs.get() : nullptr, want_reps ? (int16_t*)reps.get() : nullptr);
                 SIM_CHECK(n <= maxv, "contract.read_count_exceeds_max", "read_batch(max %lld) returned %lld", (long long)maxv, (long long)n);
+                if (out) {
+                    mixi(n);
+                    if (n > 0) {
+                        if (want_defs) mixb(defs.get(), 2 * (size_t)n);
+                        if (want_reps) mixb(reps.get(), 2 * (size_t)n);
+                        int md = node ? carquet_schema_node_max_def_level(node) : 0;
+                        int64_t nn = -1;
+                        if (md == 0) nn = n; else if (want_defs) { nn = 0; const int16_t* d = (const int16_t*)defs.get(); for (int64_t i = 0; i < n; i++) nn += d[i] == md; }
+                        if (nn >= 0 && node && (int)carquet_schema_node_physical_type(node) != T_BA) mixb(vals.get(), slot * (size_t)nn);
+                    }
+                }
                 if (n > 0 && node && (int)carquet_schema_node_physical_type(node) == T_BA) {
                     // returned byte arrays must lie in memory the library owns: dereference a few (ASan / guard page decide)
                     int64_t chk = std::min<int64_t>(n, 6); volatile uint8_t sink = 0;
@@ -183,6 +199,7 @@ void exercise(const std::string& path, size_t image_size, int mode, bool verify,
                 carquet_status_t st = cq::batch_reader_next(br, &b);
                 if (st != CARQUET_OK || !b) { if (b) cq::row_batch_free(b); if (r.below(2)) break; SIM_COUNT("probe.batch_next_called_again_after_error"); continue; }   // calling next() again after an error is a valid call
                 int64_t nr = carquet_row_batch_num_rows(b); int32_t nc = carquet_row_batch_num_columns(b);
+                mixi(nr); mixi(nc);
                 for (int32_t ci = -1; ci <= nc; ci++) {
                     const void* data = nullptr; const uint8_t* bm = nullptr; int64_t nv = 0;
                     carquet_status_t cs = carquet_row_batch_column(b, ci, &data, &bm, &nv);
@@ -191,6 +208,7 @@ void exercise(const std::string& path, size_t image_size, int mode, bool verify,
                     // a user trusts num_values: touch the first and last slot and the bitmap
                     if (nv > 0 && data) { volatile uint8_t sink = ((const uint8_t*)data)[0]; (void)sink; }
                     if (nv > 0 && bm) { volatile uint8_t sink = bm[0] ^ bm[(size_t)(nv - 1) / 8]; (void)sink; }
+                    mixi(nv); if (out && nv > 0 && bm) { mixb(bm, (size_t)nv / 8); if (nv % 8) mixi(bm[(size_t)nv / 8] & ((1 << (nv % 8)) - 1)); }
                     (void)nr;
                 }
                 cq::row_batch_free(b);
@@ -313,7 +331,21 @@ void run_c04(sim::RunCtx& ctx) {
             uint32_t f = r.below(4);
             if (f == 0) sim::srcplan.eio_at_read = (int64_t)r.below(12); else if (f == 1) sim::srcplan.fail_at_seek = (int64_t)r.below(12); else if (f == 2) sim::srcplan.early_eof_at = (int64_t)r.below((uint32_t)img.size() + 1); else sim::srcplan.fopen_fail_at = 0;
         }
-        exercise(hpath, img.size(), mode, verify, r, evals);
+        bool differential = r.below(4) == 0;
+        sim::Rng r_before = r; sim::SrcPlan sp_before = sim::srcplan;
+        uint64_t h1 = 1469598103934665603ull, h2 = h1;
+        exercise(hpath, img.size(), mode, verify, r, evals, &h1);
+        if (differential) {
+            // same history once more with different garbage in fresh heap blocks: what the calls hand back must not depend on it
+            std::string leak0; SIM_CHECK(sim::ledger_leaks(&leak0) == 0, "resource.leak", "%s: after closing every handle of a hostile file: %s", exec::mode_name(mode), leak0.c_str());
+            sim::reset_fault_plans(); sim::srcplan = sp_before;
+            uint8_t dirt0 = sim::allocplan.dirt; sim::allocplan.dirt = (uint8_t)(dirt0 ^ 0x5A);
+            sim::Rng r2 = r_before; uint64_t ev2 = 0;
+            exercise(hpath, img.size(), mode, verify, r2, ev2, &h2);
+            sim::allocplan.dirt = dirt0;
+            SIM_CHECK(h1 == h2, "uninitialised.result_depends_on_heap_garbage", "%s: the same call history on the same image returned different levels/values/counts when fresh heap memory was filled with 0x%02x instead of 0x%02x: something handed to the caller was never written by the library", exec::mode_name(mode), dirt0 ^ 0x5A, dirt0);
+            SIM_COUNT("probe.heap_garbage_differential_run");
+        }
         std::string leak;
         SIM_CHECK(sim::ledger_leaks(&leak) == 0, "resource.leak", "%s: after closing every handle of a hostile file: %s", exec::mode_name(mode), leak.c_str());
         sim::world_check_closed();
